@@ -11,9 +11,19 @@ The oracle below is written from the property text and the Python documentation 
 `ast.arguments`; it does not look at the Lean model.
 """
 import itertools
+import os
 
 import core
 from core import Stream
+
+# Flip to True once fixes/C14-kwonly-defaults.diff is applied to /repo (see design/C14.md, "After the
+# fix"): the driver then answers with the repaired model of lean/PV/C14/Fixed.lean, the full-strength
+# theorems PV.C14.Fixed.* become the claim, and the two known findings are no longer expected.
+FIX_APPLIED = os.environ.get("PV_C14_FIX_APPLIED", "0") == "1"
+if FIX_APPLIED:
+    os.environ["PV_C14_MODEL"] = "fixed"        # inherited by lean/Drv/C14.lean
+else:
+    os.environ.pop("PV_C14_MODEL", None)
 
 ID = "C14"
 DESIGN_REF = "DESIGN.md section 5, C14"
@@ -57,6 +67,8 @@ TRUSTED = [
     "default feature set only (ArgWithDefault::from_arg is todo!() under all-nodes-with-ranges)",
     "tools/props/c14.py (generator, independent Python oracle), harness/src/bin/pvh_c14.rs, lean/Drv/C14.lean",
 ]
+_FIXED_THEOREMS = [t for t in THEOREMS if ".Fixed." in t]
+_PARTIAL_IF_FIXED = []
 PARTIAL = [
     "roundtrip_full is FALSE on the unchanged code (roundtrip_fails, witness def f(*, a, b=1)); proved instead: "
     "roundtrip_positional (positional-only/positional/vararg/kwarg, all lengths, full strength) and roundtrip_partial "
@@ -67,6 +79,9 @@ PARTIAL = [
     "PV.C14.Fixed.* prove both full statements for the repaired functions of fixes/C14-kwonly-defaults.diff; they are "
     "about the proposed code, not the code in /repo, until the fix is applied and Model.lean is switched",
 ]
+if FIX_APPLIED:
+    THEOREMS = _FIXED_THEOREMS + ["PV.C14.intoArguments_no_underflow", "PV.C14.splitKwonly_spec"]
+    PARTIAL = _PARTIAL_IF_FIXED
 READY = True
 TECHNIQUE = ("Lean 4 theorems over a hand-written list-level model of the conversion functions + exhaustive small-scope "
              "and random correspondence with the real rustpython-ast crate, real code judged by an independent Python oracle")
@@ -287,7 +302,7 @@ def _defect_back(a):
 def classify(req, impl_out, model_out, failure):
     """Map a failure to a listed known finding only if the implementation's answer is exactly what that
     recorded defect produces on this input, and nothing else is wrong."""
-    if not failure or impl_out is None:
+    if not failure or impl_out is None or FIX_APPLIED:
         return None
     tags = _tags(failure)
     op = req.split()[0]
